@@ -105,6 +105,12 @@ C19_Runs      == bad = {}                                   \* once, at due time
 C19_NoLeak    == Quiet => ((armed.at # Off) <=> (due # Off))
 \* an armed runtime timer always belongs to the current generation (a stale one would fire a goroutine for nothing)
 C19_ArmedIsCurrent == armed.at # Off => armed.g = gen
+\* the inductive invariant of spec/TimerInd.tla (proved there for unbounded time and generations by Apalache), checked here too
+\* on the bounded instances so that the two specifications are tied to each other
+C19_Ind == /\ (armed.at # Off => (armed.g = gen /\ due = armed.at /\ ~cancelled /\ armed.at >= now /\ \A i \in DOMAIN infl : infl[i] # gen))
+           /\ \A i \in DOMAIN infl : infl[i] = gen => (due = now /\ ~cancelled /\ armed.at = Off /\ \A j \in DOMAIN infl : infl[j] = gen => j = i)
+           /\ (due # Off => (armed.at # Off \/ \E i \in DOMAIN infl : infl[i] = gen))
+           /\ (cancelled => due = Off)
 C19_StopPrompt == TRUE                                       \* Stop and Refresh are single critical sections: they never wait
 
 \* behaviours for replay
